@@ -227,17 +227,24 @@ class Instance:
             if callable(serialize_option):
                 self.metadata.pop("serialize", None)  # prevent recursion
             return serialize_option
-        for strategy in self.__owner_builder.iter_serialization_strategies(
-            self.metadata, self.type
-        ):
-            if strategy is pass_through:
-                return pass_through
-            elif isinstance(strategy, dict):
-                serialize_option = strategy.get("serialize")
-            elif isinstance(strategy, SerializationStrategy):
-                serialize_option = strategy.serialize
-            if serialize_option is not None:
-                return serialize_option
+        # the same type keys, in the same order, as the serializer
+        checking_types = [self.type, self.origin_type]
+        if is_annotated(self._original_type):
+            checking_types.insert(0, self._original_type)
+        for typ in checking_types:
+            for (
+                strategy
+            ) in self.__owner_builder.iter_serialization_strategies(
+                self.metadata, typ
+            ):
+                if strategy is pass_through:
+                    return pass_through
+                elif isinstance(strategy, dict):
+                    serialize_option = strategy.get("serialize")
+                elif isinstance(strategy, SerializationStrategy):
+                    serialize_option = strategy.serialize
+                if serialize_option is not None:
+                    return serialize_option
         return None
 
     def get_owner_config(self) -> Type[BaseConfig]:
